@@ -14,9 +14,9 @@ MonLatest(s)   == \A i \in DOMAIN s.board :
                     s.board[i].a \in Traders(s) /\ s.board[i].v = s.vol[s.board[i].a]
 MonLeftOff(s)  == Len(s.board) = 5 =>
                     \A t \in Traders(s) \ OnBoard(s) : s.vol[t] <= s.board[5].v
-(* not part of the statement's text but of its title ("the top traders"): while the board is not
-   full nobody who traded is missing.  Kept as a conformance fact (drift), not as a monitor. *)
-AllListedWhileNotFull(s) ==
+(* "the leaderboard is the top traders by volume" / "left off a FULL board": while the board is not
+   full nobody with counted volume is left off *)
+MonTopWhileNotFull(s) ==
   Len(s.board) < 5 => \A t \in Traders(s) : s.vol[t] > 0 => t \in OnBoard(s)
 
 (* --- step monitors (third sentence): end time never earlier, never past max(end, now + cap) *)
@@ -24,10 +24,10 @@ MonEndNotEarlier(e) == e.post.end >= e.pre.end
 MonEndCapped(e)     == e.post.end <= LMax(e.pre.end, e.now + e.c.cap)
 
 StateMons(s) == MonLen(s) /\ MonDistinct(s) /\ MonSorted(s) /\ MonLatest(s) /\ MonLeftOff(s)
+                /\ MonTopWhileNotFull(s)
 
 (* --- conformance with the precise specification *)
 Conforms(e) ==
   /\ e.ok
   /\ e.post = Trade(e.c, e.pre, e.t, e.before, e.after, e.now, e.success, e.hasev)
-  /\ AllListedWhileNotFull(e.post)
 =============================================================================
